@@ -63,6 +63,7 @@ UNITS = {
     'SETTERS': dict(template='setters.rs', rlimit=30),
     'LINKBUILDER': dict(template='linkbuilder.rs', rlimit=30),
     'DELIVERY': dict(template='delivery.rs', rlimit=30),
+    'TERMINUS': dict(template='terminus.rs', rlimit=30),
     'VISITENUM': dict(template='visitenum.rs', rlimit=30),
     'NEWTYPES': dict(template='newtypes.rs', rlimit=30),
     'SIZEENTRY': dict(template='sizeentry.rs', rlimit=30),
@@ -282,7 +283,7 @@ PROPS = {
             'slab::Slab is modelled as a partial map whose vacant key is unoccupied (trusted stand-in)',
             'concurrent attaches are serialised by the session engine (not verified)']),
     'C13': dict(
-        units=['SESSION', 'LINK', 'SESSENG', 'LINKDETACH', 'SENDSPLIT', 'RECVLOOP', 'LINKATTACH', 'LINKFLOW', 'ACCSESS', 'HANDLES', 'WIRING', 'ACCLINK', 'LINKAPI', 'CONN', 'ACCDELEG', 'TXNDELEG', 'LCONNDELEG', 'SESSWIRING', 'CONNWIRING', 'CONVERSIONS', 'WIRELAYOUT', 'ERRCOND', 'LINKEXCH', 'SETTERS', 'LINKRESUME', 'RESUMECORE', 'TXNCOORD', 'TXNCTRL', 'ATTACHBUILD'],
+        units=['SESSION', 'LINK', 'SESSENG', 'LINKDETACH', 'SENDSPLIT', 'RECVLOOP', 'LINKATTACH', 'LINKFLOW', 'ACCSESS', 'HANDLES', 'WIRING', 'ACCLINK', 'LINKAPI', 'CONN', 'ACCDELEG', 'TXNDELEG', 'LCONNDELEG', 'SESSWIRING', 'CONNWIRING', 'CONVERSIONS', 'WIRELAYOUT', 'ERRCOND', 'LINKEXCH', 'SETTERS', 'LINKRESUME', 'RESUMECORE', 'TXNCOORD', 'TXNCTRL', 'ATTACHBUILD', 'TERMINUS'],
         lemmas={'SESSENG': ['lemma_ext_trans']}, kani=[], level='proof', title='Session and link lifecycles',
         assumptions=[ASYNC, ENGINE,
             '"returns only after the peer\'s answer" is decided as a safety clause (detach / close / end_session / wait_for_remote_end return Ok only once the peer\'s detach / End has been taken from the incoming channel; units LINKDETACH, SESSENG); "answered no later than the next operation" and "within bounded time" are liveness statements and are not decided',
@@ -303,7 +304,7 @@ PROPS = {
             'NOT DECIDED: what a dropped future does inside library futures; the Detach arm of recv_inner and Sender::send\'s wait for the outcome; starvation dynamics under repeated cancellation beyond the per-call credit leak; duplicates (none possible in the functions under contract: a frame leaves the channel once)',
             ASYNC]),
     'C15': dict(
-        units=['SESSION', 'CONN', 'FRAMEDEC', 'LINK', 'CONNENG', 'TRANSPORT', 'SEQACCESS', 'ACCSESS', 'LINKATTACH', 'FRAMEENC', 'SASLMECH', 'SESSENG', 'READERS', 'TIMERS', 'TXN', 'BYTEREADER', 'REASM', 'RESUMESPLIT', 'SETTERS', 'TXNCOORD', 'ATTACHBUILD', 'LINKEXCH'], kani=[], level='proof', title='Misbehaving peer',
+        units=['SESSION', 'CONN', 'FRAMEDEC', 'LINK', 'CONNENG', 'TRANSPORT', 'SEQACCESS', 'ACCSESS', 'LINKATTACH', 'FRAMEENC', 'SASLMECH', 'SESSENG', 'READERS', 'TIMERS', 'TXN', 'BYTEREADER', 'REASM', 'RESUMESPLIT', 'SETTERS', 'TXNCOORD', 'ATTACHBUILD', 'LINKEXCH', 'TERMINUS'], kani=[], level='proof', title='Misbehaving peer',
         assumptions=[ASYNC, ENGINE,
             'never-blocks-forever and isolation between connections are not decided',
             'handlers of peer input carry no precondition on the peer-controlled arguments']),
